@@ -65,6 +65,10 @@ CLAIMED = {
    technique="abstract interpretation of Deb822::{add_paragraph,insert_paragraph,remove_paragraph} (+ a field edit on the returned paragraph) on interpreted-parser trees with the rowan model; list model + acceptance and paragraph split of the flattened token sequence by the well-formed token grammar",
    text="For 7 symbolic layouts (empty, several blank lines, leading / intermediate comments, missing final newline, trailing blanks) and every index 0..n+1 the live paragraph list must equal push/insert(i)/remove(i) on the list model (out-of-range insert appends, out-of-range remove is a no-op), the printed token sequence must be accepted by the well-formed grammar and split into exactly the model's paragraphs (i.e. re-reads identically, paragraphs stay separated by a blank line), and every comment must survive in order. Bounded: one paragraph operation per run.",
    note="As C04: hand-written rowan model; the flattened token sequence is assumed to re-lex to itself when the grammar accepts it."),
+ "C07": dict(level="other", ref="4/C07",
+   technique="abstract interpretation of Deb822/Paragraph/Entry::wrap_and_sort + rebuild_value on interpreted-parser trees over a settings matrix, with the rowan model and symbolic texts (forks on unknown lengths); per-outcome predicates incl. a second application",
+   text="For 3 symbolic layouts (comments between fields and before paragraphs, multi-line values, duplicate names, extra blank lines, missing final newline) x the settings matrix (Spaces(1)/Spaces(4)/FieldNameLength x immediate_empty_line x one-liner limit none/some x sort by name or not; 24 combinations thorough, 18 quick) every outcome must: parse strictly, keep paragraphs/fields/value lines in the requested (stable) order, keep each comment on its own line in front of the same field, indent continuation lines by exactly the requested width, separate paragraphs by exactly one blank line, report live content equal to its re-read, be returned as a mutable tree, and be reproduced by a second application.",
+   note="The value-formatter (format_value / control-file formatter) path is not covered (multi-line formatter output is re-lexed; out of reach of the symbolic lexer); comparators depend on names only; bounded layouts; rowan model hand-written."),
 }
 NA_REASON = "check not built yet (construction in progress; see DESIGN.md section 9 build order)"
 
